@@ -71,7 +71,16 @@ fn ops_for(ctx: &Ctx, is_sub: bool, name: &str) -> Vec<LOp> {
         // Outcome unknown: abandoned / hung calls, and mutations answered with a "conflict"
         // status (the resource was deleted under the request; its own effect may have happened).
         let conflict = matches!(c.out, Some(Outcome::Err(FAILED_PRECONDITION, _)) | Some(Outcome::Err(INTERNAL, _)));
-        let mutation = matches!(c.req, Req::CreateSub { .. } | Req::DeleteSub { .. } | Req::CreateTopic { .. } | Req::DeleteTopic { .. });
+        // ... for a *create*: it registers the name before it attaches, so a create that loses a
+        // race is answered "conflict" although the name existed for a moment (and may still exist).
+        // A *delete* that is answered "conflict" found the resource already being deleted by someone
+        // else, or gone: it deleted nothing itself - a delete that reports failure and deletes anyway
+        // is not "a delete that has returned" in any sense a client can use.
+        let mutation = matches!(c.req, Req::CreateSub { .. } | Req::CreateTopic { .. });
+        let failed_delete = conflict && matches!(c.req, Req::DeleteSub { .. } | Req::DeleteTopic { .. });
+        if failed_delete {
+            continue;
+        }
         let pending = !matches!(c.out, Some(Outcome::Ok(_)) | Some(Outcome::Err(_, _))) || (conflict && mutation);
         let code = c.code();
         let ret = if pending { u64::MAX } else { c.ret_seq.unwrap() };
